@@ -42,25 +42,34 @@ ScriptsSmall == {
   <<Ver(208)>>
 }
 
-\* safety: all interleavings of 2 senders (2+1 messages), 1 inventory,
-\* Disconnect at any point, remote close, both directions
-ScenariosSafety ==
-  { Scn(d, 70016, scr, rc, PlanA, iv, dc) :
-      d \in {"in", "out"}, scr \in ScriptsCore, rc \in BOOLEAN,
-      iv \in {<<>>, <<"tx">>}, dc \in BOOLEAN }
+NoHandshake == { <<M("verack")>>, <<>> }
 
-ScenariosSafetyQuick ==
-  { Scn(d, 70016, scr, rc, pl, iv, dc) :
-      d \in {"in", "out"}, scr \in ScriptsCore, rc \in BOOLEAN,
-      pl \in {PlanB}, iv \in {<<>>, <<"block">>}, dc \in BOOLEAN }
-  \cup
-  { Scn("in", 70016, scr, FALSE, PlanA, <<>>, TRUE) : scr \in ScriptsSmall }
+\* quick tier ------------------------------------------------------------
+\* handlers never start: 2 senders x (2+1) messages race with the failing
+\* negotiation and with Disconnect, both directions
+ScenariosQuickA ==
+  { Scn(d, 70016, scr, FALSE, PlanA, <<>>, TRUE) : d \in {"in", "out"}, scr \in NoHandshake }
+\* full pipeline: one sender, ping from the remote (pong through the queue),
+\* Disconnect at any point
+ScenariosQuickB ==
+  { Scn("in", 70016, HS \o <<M("ping")>>, FALSE, PlanB, <<>>, TRUE) }
+ScenariosSafetyQuick == ScenariosQuickA \cup ScenariosQuickB
+ScenariosLiveQuick ==
+  { Scn(d, 70016, scr, FALSE, PlanB, <<>>, dc) : d \in {"in", "out"}, scr \in NoHandshake \cup {<<Ver(208)>>}, dc \in BOOLEAN }
+  \cup { Scn("in", 70016, HS, FALSE, Plan0, <<>>, TRUE), Scn("out", 70016, HS \o <<M("malformed")>>, FALSE, Plan0, <<>>, FALSE) }
 
-\* liveness: smaller, because TLC's liveness checking is far more expensive
-ScenariosLive ==
-  { Scn(d, 70016, scr, rc, PlanB, <<>>, dc) :
-      d \in {"in", "out"}, scr \in ScriptsSmall, rc \in BOOLEAN, dc \in BOOLEAN }
-  \cup
-  { Scn("in", 70016, scr, FALSE, PlanA, <<"tx">>, TRUE) : scr \in {HS \o <<M("ping")>>, <<M("verack")>>} }
+\* thorough tier ---------------------------------------------------------
+ScenariosSafetyThorough ==
+  ScenariosQuickA
+  \cup { Scn(d, 70016, scr, rc, PlanB, iv, dc) :
+           d \in {"in", "out"}, scr \in ScriptsCore, rc \in BOOLEAN, iv \in {<<>>}, dc \in BOOLEAN }
+  \cup { Scn("in", 70016, HS, FALSE, PlanB, <<"tx">>, TRUE), Scn("in", 70016, HS, FALSE, PlanB, <<"block">>, TRUE),
+          Scn("out", 70016, HS, FALSE, PlanA, <<>>, TRUE) }
+ScenariosTimers ==
+  { Scn(d, 70016, scr, FALSE, PlanB, <<>>, FALSE) : d \in {"in", "out"}, scr \in {HS, <<Ver(70016)>>} }
+ScenariosLiveThorough ==
+  ScenariosLiveQuick
+  \cup { Scn("in", 70016, scr, FALSE, PlanB, <<>>, TRUE) : scr \in {HS \o <<M("ping")>>, HS \o <<M("malformed")>>} }
+
 ScenariosOne == { Scn("in", 70016, HS \o <<M("ping")>>, FALSE, PlanB, <<>>, TRUE) }
 =============================================================================
